@@ -33,6 +33,8 @@ pub enum Step {
     Reset,
     /// the terminal never sends anything again on this connection
     Silence,
+    /// a marker in the connection log (e.g. the moment a fault becomes effective)
+    Note(String),
 }
 
 #[derive(Clone, Debug, PartialEq)]
@@ -91,6 +93,10 @@ pub struct TermState {
     /// a pre-authorisation the client does not know about
     pub dangling: Option<u32>,
     pub conns: Vec<Vec<ConnEv>>,
+    /// all connection events in global order
+    pub glog: Vec<(usize, ConnEv)>,
+    /// connections the terminal has closed while they were idle
+    pub killed: Vec<usize>,
     pub reqs: Vec<ReqRec>,
     pub start: tokio::time::Instant,
     pub end_of_day_count: u32,
@@ -351,14 +357,21 @@ unsafe impl Send for TermConn {}
 
 impl TermConn {
     fn ev(&self, e: ConnEv) {
-        self.w.borrow_mut().t.conns[self.id].push(e);
+        let mut w = self.w.borrow_mut();
+        w.t.glog.push((self.id, e.clone()));
+        w.t.conns[self.id].push(e);
+    }
+    fn killed(&self) -> bool {
+        self.w.borrow().t.killed.contains(&self.id)
     }
 }
 
 impl Drop for TermConn {
     fn drop(&mut self) {
         if let Ok(mut w) = self.w.try_borrow_mut() {
-            w.t.conns[self.id].push(ConnEv::Dropped);
+            let id = self.id;
+            w.t.glog.push((id, ConnEv::Dropped));
+            w.t.conns[id].push(ConnEv::Dropped);
         }
     }
 }
@@ -374,6 +387,10 @@ impl AsyncRead for TermConn {
             }
             if self.reset {
                 return Poll::Ready(Err(std::io::Error::new(std::io::ErrorKind::ConnectionReset, "reset by the simulated terminal")));
+            }
+            if !self.closed && self.killed() {
+                self.closed = true;
+                self.ev(ConnEv::TermClosed);
             }
             if self.closed {
                 return Poll::Ready(Ok(()));
@@ -421,6 +438,10 @@ impl AsyncRead for TermConn {
                     self.silent = true;
                     self.ev(ConnEv::Sent("silence".into()));
                 }
+                Step::Note(n) => {
+                    self.out.pop_front();
+                    self.ev(ConnEv::Sent(n));
+                }
             }
         }
     }
@@ -436,6 +457,10 @@ impl AsyncWrite for TermConn {
         if stalled {
             // never accepts data and never wakes the writer
             return Poll::Pending;
+        }
+        if !self.closed && self.killed() {
+            self.closed = true;
+            self.ev(ConnEv::TermClosed);
         }
         if self.closed || self.reset {
             return Poll::Ready(Err(std::io::Error::new(std::io::ErrorKind::BrokenPipe, "connection closed by the simulated terminal")));
@@ -470,6 +495,7 @@ impl AsyncWrite for TermConn {
                 let key = key.unwrap_or_else(|| format!("unknown-{:02x}{:02x}", pkt[0], pkt[1]));
                 let val = if key.starts_with("unknown") { None } else { Codec::new(table).decode(table.get(&key), &pkt).ok().map(|x| x.0) };
                 let seq = w.t.conns[id].len();
+                w.t.glog.push((id, ConnEv::Command(key.clone(), pkt.clone())));
                 w.t.conns[id].push(ConnEv::Command(key.clone(), pkt.clone()));
                 let rec = ReqRec { conn: id, t_ms: w.t.now_ms(), key, val, raw: pkt.clone(), seq };
                 w.t.reqs.push(rec.clone());
@@ -560,6 +586,8 @@ impl Sim {
             ledger: BTreeSet::new(),
             dangling: None,
             conns: vec![],
+            glog: vec![],
+            killed: vec![],
             reqs: vec![],
             start,
             end_of_day_count: 0,
@@ -573,7 +601,8 @@ impl Sim {
                 let id = w.t.conns.len();
                 let mut ctx = w.ctx.borrow_mut();
                 let d = w.policy.on_connect(&mut w.t, &mut ctx, id);
-                if !matches!(d, Accept::Refuse) {
+                if matches!(d, Accept::Yes) {
+                    w.t.glog.push((id, ConnEv::Opened));
                     w.t.conns.push(vec![ConnEv::Opened]);
                 } else {
                     w.t.conns.push(vec![]);
